@@ -361,6 +361,7 @@ func report(vdir, prop, tier string, seed int, results []*engine.UnitResult, t0 
 	solverTime := 0.0
 	assumptions := map[string]bool{}
 	var funcs []string
+	replayFuncs := []string{}
 	var samples []map[string]interface{}
 	var dischargedNames []string
 	vac := map[string]int{"cover_obligations": 0, "covered": 0}
@@ -396,6 +397,9 @@ func report(vdir, prop, tier string, seed int, results []*engine.UnitResult, t0 
 			continue
 		}
 		funcs = append(funcs, r.Unit)
+		if replayable(r) {
+			replayFuncs = append(replayFuncs, r.Unit)
+		}
 		deferred += r.VC.Deferred
 		for a := range r.VC.Assume {
 			assumptions[a] = true
@@ -569,6 +573,11 @@ func report(vdir, prop, tier string, seed int, results []*engine.UnitResult, t0 
 			"checker_cmd":              fmt.Sprintf("bin/nriverif check --property %s --tier %s", prop, tier),
 			"trusted_base":             trustedBase(),
 			"functions_under_contract": funcs,
+			"counterexample_replay": map[string]interface{}{
+				"how":                  "a sat model of an obligation of a function with scalar parameters and scalar/error results is turned into a Go test, injected with go test -overlay and run on the tree being checked; confirmed when the real code returns what the model predicts (or panics, for a safety obligation)",
+				"replayable_functions": replayFuncs,
+				"not_replayed":         "functions with pointer, slice, map or interface parameters or a receiver: the model is a heap; their VIOLATION lines end with no-failing-input-found",
+			},
 			"by_backend":               byBackend,
 			"solver_time_s":            solverTime,
 			"bounded_obligations":      nBounded,
